@@ -51,6 +51,7 @@ EXTRA_VALUES = {("CAN", "BsZ"): [(b"\x00", 4), (b"\x12\x34\x00", 1), (b"\x80\x00
 def run(ctx):
     ctx.lean()
     gfind.replay_witnesses(ctx)
+    gfind.replay_fixed_witnesses(ctx)      # former witnesses of repaired findings must not reproduce (F65: order of an extensible SET)
     nb = 6 if ctx.quick else 24
     nvals = 10 if ctx.quick else 16
     mods = c01.gen_bundles(ctx, nb)
